@@ -23,8 +23,14 @@ HCL = {
     # a rejected file whose diagnostics name non-ASCII identifiers
     "rej_uni": "pc = 0; Stat = STAT_HLT;\n\u00e9tat = 1;\nregister \u00e9 { k : 8 = 0; }\nwire w:8; w = \u65e5\u672c + 1;\n",
 }
+# files that are not UTF-8 or use bare carriage returns as line ends: read lossily / CR ends a line and a line comment
+HCL_BYTES = {
+    "ok_latin1": b"# caf\xe9 au lait \xff\xfe\nregister cC { n:8 = 0; } c_n = C_n + 1; pc = 0; # arr\xeat\nStat = [C_n == 2 : STAT_HLT; 1 : STAT_AOK];\n",
+    "ok_cr": b"register cC { n:8 = 0; }\r# a comment that ends at the carriage return\rc_n = C_n + 1; // another\rpc = 0;\rStat = [C_n == 2 : STAT_HLT; 1 : STAT_AOK];\r",
+}
 # cycles until the program stops by itself (None = never), error banner, abort cycle
-STOP = {"ok_halt": (3, "halted"), "ok_run": (None, None), "ok_err": (2, "error"), "div": (None, None)}
+STOP = {"ok_halt": (3, "halted"), "ok_run": (None, None), "ok_err": (2, "error"), "div": (None, None),
+        "ok_latin1": (3, "halted"), "ok_cr": (3, "halted")}
 ABORT_AT = {"div": 3}
 
 YO = {
@@ -64,6 +70,8 @@ def prepare(workdir):
     os.makedirs(workdir)
     for n, t in HCL.items():
         open(os.path.join(workdir, n + ".hcl"), "w", encoding="utf-8").write(t)
+    for n, t in HCL_BYTES.items():
+        open(os.path.join(workdir, n + ".hcl"), "wb").write(t)
     os.makedirs(os.path.join(workdir, "dir.hcl"))
     for n, t in YO.items():
         open(os.path.join(workdir, n + ".yo"), "w", encoding="utf-8").write(t)
@@ -133,7 +141,7 @@ def generate(binary, seed, count, outfile, workdir):
                         dup = True
                     canonical[n] = True
             # positionals
-            hcl = rnd.choice(["ok_halt", "ok_halt", "ok_run", "ok_err", "div", "rej", "syn", "missing", "dir", "syn_nbsp", "syn_wide", "syn_eof", "rej_uni"])
+            hcl = rnd.choice(["ok_halt", "ok_halt", "ok_run", "ok_err", "div", "rej", "syn", "missing", "dir", "syn_nbsp", "syn_wide", "syn_eof", "rej_uni", "ok_latin1", "ok_cr"])
             traw = rnd.choice(TIMEOUTS)
             if hcl == "ok_run" and traw in ("4294967295",):
                 hcl = "ok_halt"        # a non-halting program with a 2^32-1 budget would run for hours
